@@ -22,14 +22,14 @@ from vlib.memogen import AUTH_ZERO, ZERO_CODES
 PID = "C22"
 RULE = ("cases: 1-2 valid memos (4 zero codes x base64/base2 headers x sizes x signer incl. one unknown to the receiver) + "
         "0-6 mutations of their grams (byte flip at a generated offset, truncation, code swap over the 10 codes, gram number "
-        "rewrite incl. >= count, invalid base64 char, invalid UTF-8 in the body, body / signature alteration) + 0-3 arbitrary "
+        "rewrite incl. >= count, invalid base64 char, invalid UTF-8 in the body, body / signature alteration, and grams correctly signed by ANOTHER signer for the victim's memo id with any of the ten codes and any gram number) + 0-3 arbitrary "
         "byte strings, delivered in a generated order with receive servicing every k datagrams, authic on or off; non-trivial "
         "= at least one mutated copy of a valid gram (not just random bytes) was delivered and got past the code lookup (its "
         "first 4 characters / 3 bytes are a defined gram code); distinct = canonical hash")
 ASSUMPTIONS = [
     "delivery uses the documented test channel (.echos, echoic receive); an empty datagram means 'nothing received'",
-    "the authenticity clause is judged only with authic=True; a self-certifying (code 'B') or known signer signing its own memo "
-    "is authentic by definition, also when the receiver has never seen it",
+    "the authenticity clause is judged only with authic=True: a delivered memo must equal a memo its claimed signer signed, or at "
+    "least consist only of gram bodies that this signer signed (a signer may forge its own memos; it may not add to another's)",
     "memo ids are deterministic; the unknown signer uses a transferable vid (code 'D') that is absent from the receiver's keep",
 ]
 
@@ -84,6 +84,53 @@ def mutate(g, m, curt):
     return bytes(g)
 
 
+def forge(g, curt, m, tx):
+    """A gram made by another signer for the victim gram's memo id: m = ["forge", code index, gram number, body, signer]."""
+    from base64 import urlsafe_b64decode, urlsafe_b64encode
+    from hio.help import helping
+    code = CODES[m[1] % len(CODES)]
+    bz, nz, mz, vz, az = memoing.Memoer.Sizes[code]
+    mid = (urlsafe_b64encode(bytes(g[6:24])) if curt else bytes(g[8:32]))
+    if len(mid) != 24:
+        return None
+    signer = memogen.SIGNERS[m[4] % 3] if m[4] < 3 else memogen.STRANGER
+    vid = signer[0]
+    gnum = helping.intToB64b(m[2] % (64 ** 4), l=4)
+    head = code.encode() + gnum + mid + (vid.encode() if vz else b"")
+    if curt:
+        head = urlsafe_b64decode(head)
+    gram = head + m[3]
+    if az:
+        old_curt, old_vid = tx.curt, tx.vid
+        tx.curt = curt
+        try:
+            gram = gram + tx.sign(vid, gram)
+        finally:
+            tx.curt = old_curt
+    return bytes(gram)
+
+
+def body_of(g, curt):
+    """Body bytes of a well formed gram (between fore head and signature)."""
+    code = code_of(g)
+    bz, nz, mz, vz, az = memoing.Memoer.Sizes[code]
+    head = bz + nz + mz + vz
+    if curt:
+        head, az = 3 * head // 4, 3 * az // 4
+    return bytes(g[head:len(g) - az])
+
+
+def composable(data, bodies):
+    """data is a concatenation of members of bodies (dynamic programming over prefixes)."""
+    ok = [True] + [False] * len(data)
+    for i in range(len(data)):
+        if ok[i]:
+            for b in bodies:
+                if b and data.startswith(b, i):
+                    ok[i + len(b)] = True
+    return ok[len(data)]
+
+
 def code_of(g):
     try:
         if len(g) >= 4 and bytes(g[:4]).decode("ascii") in CODES:
@@ -103,6 +150,7 @@ def run_case(case):
     memogen.reset_mids()
     authic = case["authic"]
     originals = set()       # (text, vid) of memos that were really signed by vid
+    signed = {}             # vid -> set of gram bodies that vid really signed (originals and forgeries alike)
     grams = []              # (bytes, src, is_mutant, curt)
     for mi, ms in enumerate(case["memos"]):
         code = ZERO_CODES[ms["code"]]
@@ -117,17 +165,30 @@ def run_case(case):
             gs = [bytes(g) for g in tx.rend(ms["text"], vid)]
         except Exception:        # noqa: BLE001 - sender side limits and failures are C20's business, not judged here
             continue
-        if vid is not None and ms["signer"] != 3:
+        if vid is not None:
             originals.add((ms["text"], vid))
+            for g in gs:
+                signed.setdefault(vid, set()).add(body_of(g, curt))
         for g in gs:
             grams.append((g, "src%d" % mi, False, curt))
     pool = list(grams)
     past_lookup = False
+    forged = False
+    forger = memogen.sender(memoing.MemoDex.GramAuthZero, False, 65535, signer=0)
     for m in case["muts"]:
         if not grams:
             break
         g, src, _mut, curt = grams[m[1] % len(grams)]
-        mg = mutate(g, m[2], curt)
+        if m[2][0] == "forge":
+            mg = forge(g, curt, m[2], forger)
+            if mg is None:
+                continue
+            forged = True
+            fs = memogen.SIGNERS[m[2][4] % 3] if m[2][4] < 3 else memogen.STRANGER
+            if memoing.Memoer.Sizes[CODES[m[2][1] % len(CODES)]].az:
+                signed.setdefault(fs[0], set()).add(bytes(m[2][3]))
+        else:
+            mg = mutate(g, m[2], curt)
         if mg != g:
             pool.append((mg, src if m[0] else "evil", True, curt))
             if mg and code_of(mg) is not None:
@@ -139,6 +200,15 @@ def run_case(case):
         return r
     seq = [p % n for p in case["order"]]
     seq += [i for i in range(n) if i not in set(seq)]
+    mode = case.get("order_mode")
+    if mode in ("zeroth-mutants-rest", "mutants-first"):
+        # deliver the mutants / forgeries right after the first valid gram (the zeroth gram of the first memo), or first of all
+        muts_idx = [i for i in range(n) if pool[i][2]]
+        valid_idx = [i for i in range(n) if not pool[i][2]]
+        if mode == "mutants-first":
+            seq = muts_idx + valid_idx
+        else:
+            seq = valid_idx[:1] + muts_idx + valid_idx[1:]
     rx = memogen.receiver(authic=authic)
     k = max(1, case["svc_every"])
     try:
@@ -154,13 +224,19 @@ def run_case(case):
         return r
     if authic:
         for (text, src, vid) in rx.inbox:
-            if (text, vid) not in originals:
-                r.fail("C22/unauthentic-memo-delivered", "inbox has %r from %r with vid %r; authentic memos: %r" % (
-                    text[:80], src, vid, sorted(originals)[:3]))
+            if (text, vid) in originals:
+                continue
+            # anything else must at least consist only of gram bodies that this very signer signed
+            if vid is None or not composable(text.encode(), signed.get(vid, ())):
+                r.fail("C22/unauthentic-memo-delivered", "inbox has %r from %r attributed to signer %r, which is neither a memo "
+                       "that signer signed nor made only of gram bodies that signer signed; authentic memos: %r" % (
+                           text[:80], src, vid, sorted(originals)[:3]))
     r.nontrivial = past_lookup
     r.labels.append("authic" if authic else "not-authic")
     if past_lookup:
         r.labels.append("mutant-past-code-lookup")
+    if forged:
+        r.labels.append("forged-gram-from-another-signer")
     if case["raw"]:
         r.labels.append("random-bytes")
     if rx.inbox:
@@ -188,6 +264,11 @@ def _strategy():
         st.tuples(st.just("badutf8"), st.integers(0, 7)),
         st.tuples(st.just("tail"), st.integers(0, 89)),
         st.tuples(st.just("extend"), st.binary(min_size=1, max_size=4)),
+        # a correctly signed gram made by another signer for the same memo id (any of the ten codes, any gram number)
+        st.tuples(st.just("forge"), st.integers(0, 9), st.one_of(st.integers(0, 4), st.integers(0, 64 ** 4 - 1)),
+                  st.binary(min_size=1, max_size=12).map(lambda b: b"EVIL" + b), st.integers(0, 3)),
+        st.tuples(st.just("forge"), st.sampled_from([2, 3, 6, 7, 9]), st.integers(0, 3),
+                  st.just(b"EVIL"), st.integers(0, 3)),
     ).map(list)
     muts = st.lists(st.tuples(st.booleans(), st.integers(0, 50), mut).map(list), max_size=6)
     raw = st.one_of(st.binary(max_size=40), st.binary(min_size=1, max_size=200).map(lambda b: b"b" + b),
@@ -198,5 +279,22 @@ def _strategy():
                                   "svc_every": st.sampled_from([1, 1, 2, 5, 1000])})
 
 
+def _forgery_strategy():
+    """One signed multi-gram memo of a victim, 1-3 grams correctly signed by another party for the victim's memo id,
+    delivered right after the victim's zeroth gram or before everything."""
+    text = st.text("abcdefgh ", min_size=50, max_size=200)
+    memo = st.fixed_dictionaries({"code": st.sampled_from([1, 3]), "curt": st.booleans(), "extra": st.integers(0, 30),
+                                  "signer": st.integers(0, 2), "text": text})
+    fg = st.tuples(st.just("forge"), st.integers(0, 9), st.integers(0, 4),
+                   st.binary(min_size=1, max_size=8).map(lambda b: b"EVIL" + b), st.integers(0, 3)).map(list)
+    muts = st.lists(st.tuples(st.booleans(), st.integers(0, 5), fg).map(list), min_size=1, max_size=3)
+    return st.fixed_dictionaries({"authic": st.just(True), "memos": st.lists(memo, min_size=1, max_size=1), "muts": muts,
+                                  "raw": st.just([]), "order": st.just([]),
+                                  "order_mode": st.sampled_from(["zeroth-mutants-rest", "zeroth-mutants-rest", "mutants-first"]),
+                                  "svc_every": st.sampled_from([1, 2, 1000])})
+
+
 def searches(tier):
-    return [("datagrams", _strategy(), 3000 if tier == "quick" else 30000)]
+    q = tier == "quick"
+    return [("datagrams", _strategy(), 2500 if q else 30000),
+            ("forgeries", _forgery_strategy(), 800 if q else 8000)]
